@@ -62,6 +62,11 @@ func canonInstr(ins string) string {
 	if name == "loadMixed" {
 		n = kv["callee"]
 	}
+	if name == "try" { // both handler offsets, as one number (the model prints catchOffset*10000 + finallyOffset)
+		c, _ := strconv.Atoi(kv["catchOffset"])
+		f, _ := strconv.Atoi(kv["finallyOffset"])
+		n = strconv.Itoa(c*10000 + f)
+	}
 	return name + ":" + n
 }
 
